@@ -190,7 +190,34 @@ def build_family(case):
             g.add_edge(idx[x], idx[y], Class=cls, **dict((k, v) for k, v in oth))
         imp.storage.add_graph(a['gid'], g)
         adms.append(I['ADM'](graph_id=a['gid'], importer=imp))
+    # some sources are re-keyed by the PUBLIC rewrite_delegations() before they are merged (merge_adm then re-keys the
+    # temporary clone again, old id = new id); the re-keying must keep every delegation, under the graph's own id
+    prerw = None
+    for k in case.get('prerewrite', []):
+        before = snapshot(imp, case['adms'][k]['gid'])
+        try:
+            adms[k].rewrite_delegations()
+        except Exception as e:
+            prerw = 'rewrite_delegations() of %s raised %s' % (case['adms'][k]['gid'], type(e).__name__)
+            continue
+        after = snapshot(imp, case['adms'][k]['gid'])
+        want = rekeyed(before, case['adms'][k]['gid'])
+        if after != want and prerw is None:
+            bad = [n[0] for n, m in zip(after[0], want[0]) if n != m]
+            prerw = ('rewrite_delegations() of %s did not keep the delegations of %s under the graph id '
+                     '(delegations keyed by the contributing model)' % (case['adms'][k]['gid'], bad[:3]))
+    _I['prerw'] = prerw
     return imp, adms
+
+
+def rekeyed(snap, gid):
+    """the snapshot with every (one-entry) delegation dictionary re-keyed to gid"""
+    out = copy.deepcopy(snap)
+    for n in out[0]:
+        for f in (4, 5):
+            if isinstance(n[f], list):
+                n[f] = [[gid, c] for _, c in n[f]]
+    return out
 
 
 def run_history(case, hist):
@@ -200,6 +227,7 @@ def run_history(case, hist):
     try:
         cbm = I['MemCBM'](graph_id=CBM_ID, importer=imp)
         src0 = [snapshot(imp, a['gid']) for a in case['adms']]
+        prerw = _I.get('prerw')
         snaps = []
         live = {}
         out = []
@@ -233,6 +261,8 @@ def run_history(case, hist):
                         'snaps_same': all(snapshot(imp, s) == v for s, v in live.items()),
                         'store_n': imp.storage.graphs.number_of_nodes(),
                         'tmp': 'u-%d' % (u0 + 1)})
+        if prerw and out:
+            out[0]['prerw'] = prerw
         return src0, out
     finally:
         imp.delete_all_graphs()
@@ -350,7 +380,22 @@ def gen_family(rng, nadm=None, mode=None):
         n = rng.choice(a['nodes'])
         f = rng.choice([4, 5])
         n[f] = rng.choice(['', [], [['del1', 'c1' if f == 5 else 'l1'], ['del2', 'c2' if f == 5 else 'l2']]])
-    return {'adms': adms, 'mode': mode}
+    fam = {'adms': adms, 'mode': mode}
+    if mode != 'malformed':
+        r = rng.random()
+        if r < 0.2:
+            # delegation ids that coincide with the model's own graph id (generate_adms(delegation_guids={G: G}))
+            for a in adms:
+                if rng.random() < 0.7:
+                    for n in a['nodes']:
+                        for f in (4, 5):
+                            if isinstance(n[f], list) and len(n[f]) == 1 and rng.random() < 0.8:
+                                n[f] = [[a['gid'], n[f][0][1]]]
+            fam['selfid'] = True
+        elif r < 0.35:
+            # sources re-keyed by the public rewrite_delegations() before the merge
+            fam['prerewrite'] = [k for k in range(len(adms)) if rng.random() < 0.6] or [0]
+    return fam
 
 
 def gen_history(rng, nadm, maxlen=12):
@@ -497,10 +542,14 @@ def c_store(I, case):
     """the initial store: the family loaded by add_graph (internal ids from 1)"""
     nodes, edges = [], []
     nxt = 1
-    for a in case['adms']:
+    for ai, a in enumerate(case['adms']):
         idx = {}
+        pre = ai in case.get('prerewrite', [])
         for (nid, cls, oth, si, ld, cd) in a['nodes']:
             idx[nid] = nxt
+            if pre:
+                ld = [[a['gid'], c] for _, c in ld] if isinstance(ld, list) else ld
+                cd = [[a['gid'], c] for _, c in cd] if isinstance(cd, list) else cd
             nodes.append('mkNode %s %s %s %s %s %s %s %s' % (
                 cN(nxt), cN(I(a['gid'])), cN(I(nid)), cN(I(cls)), c_pairs(I, sorted(oth)), c_si(I, canon_si(si)),
                 c_dval(I, ld), c_dval(I, cd)))
@@ -681,6 +730,8 @@ def oracle_history(case, hist, src0, steps, by_set):
     prev = None
     for i, (op, o) in enumerate(zip(hist, steps)):
         tag = 'step %d %s: ' % (i, op)
+        if o.get('prerw'):
+            fails.append('before the history: ' + o['prerw'])
         if not o['src_same']:
             fails.append(tag + 'a source model was altered')
         if not o['snaps_same']:
@@ -870,6 +921,8 @@ class Histories(Stream):
         h = collections.Counter()
         for c, o in zip(cases, obs):
             h['mode_' + c.get('mode', 'corpus')] += 1
+            h['families_delegation_id_is_graph_id'] += bool(c.get('selfid'))
+            h['families_pre_rewritten'] += bool(c.get('prerewrite'))
             h['adms_%d' % len(c['adms'])] += 1
             h['histories'] += len(c['hists'])
             for hist, (_, steps) in zip(c['hists'], o['runs']):
@@ -1066,6 +1119,20 @@ CORPUS = [
      'hists': [[['merge', 0], ['merge', 1], ['unmerge', 'adm-2'], ['merge', 1], ['unmerge', 'adm-1']],
                [['merge', 1], ['merge', 0], ['merge', 2], ['unmerge', 'adm-2']],
                [['merge', 0], ['merge', 2]]] + perm_histories(3)},
+    # the delegation id coincides with the model's graph id (re-keying old id = new id must be the identity)
+    {'mode': 'corpus-selfid', 'selfid': True, 'adms': [
+        {'gid': 'adm-1', 'nodes': [N('s1', 'ConnectionPoint', ld=[['adm-1', 'l1']]), N('p1-1', 'NetworkNode', cd=[['adm-1', 'c2']])],
+         'edges': [['s1', 'p1-1', 'has', []]]},
+        {'gid': 'adm-2', 'nodes': [N('s1', 'ConnectionPoint'), N('p2-1', 'NetworkNode', cd=[['adm-2', 'c1']], ld=[['del1', 'l2']])],
+         'edges': [['s1', 'p2-1', 'has', []]]}],
+     'hists': [[['merge', 0], ['merge', 1]], [['merge', 1], ['merge', 0], ['unmerge', 'adm-1'], ['merge', 0]]]},
+    # sources re-keyed by the public rewrite_delegations() before they are merged
+    {'mode': 'corpus-prerewrite', 'prerewrite': [0, 1], 'adms': [
+        {'gid': 'adm-1', 'nodes': [N('s1', 'ConnectionPoint', ld=[['del1', 'l1']]), N('p1-1', 'NetworkNode', cd=[['del2', 'c2']])],
+         'edges': [['s1', 'p1-1', 'has', []]]},
+        {'gid': 'adm-2', 'nodes': [N('s1', 'ConnectionPoint'), N('p2-1', 'NetworkNode', cd=[['adm-2', 'c1']])],
+         'edges': [['s1', 'p2-1', 'has', []]]}],
+     'hists': [[['merge', 0], ['merge', 1]], [['merge', 1], ['merge', 0], ['unmerge', 'adm-1'], ['merge', 0]]]},
 ]
 
 
@@ -1087,18 +1154,19 @@ class RealModels(Histories):
         if tier == 'quick':
             hs = [perms[0], perms[-1]] + rng.sample(perms[1:-1], 2) + [gen_history(rng, k, 8)] + inverse_histories(k, rng)[:3] + \
                 snapshot_histories(k, rng)[:2]
-            return [dict(copy.deepcopy(fam), hists=hs)]
+            return [dict(copy.deepcopy(fam), hists=hs),
+                    dict(copy.deepcopy(fam), prerewrite=list(range(k)), hists=[perms[0], perms[-1]] + inverse_histories(k, rng)[:1])]
         out = []
         for i in range(0, len(perms), 6):
             out.append(dict(copy.deepcopy(fam), hists=perms[i:i + 6] + [gen_history(rng, k, 12)] + inverse_histories(k, rng) +
-                            snapshot_histories(k, rng)))
+                            snapshot_histories(k, rng), **({'prerewrite': list(range(k))} if i == 6 else {})))
         return out
 
     def corpus(self):
         return []
 
     def key(self, case, obs):
-        return stable_hash(case['hists'])
+        return stable_hash([case['hists'], case.get('prerewrite')])
 
     def describe(self, case, obs):
         return {'family': [{'gid': a['gid'], 'from': a.get('from'), 'nodes': len(a['nodes']), 'edges': len(a['edges'])}
